@@ -371,6 +371,10 @@ def decode_param(t: ir.PType, allbits: str, pos: int, env):
         if t.kind == "string":
             text, raw = string_value(enc, fb)
             return Val(text, raw, "str"), pos + n
+        if t.kind == "boolean":
+            # "the truthiness of the raw value": the raw value of a string-encoded parameter is its whole buffer
+            _text, raw = string_value(enc, fb)          # an undecodable / unterminated buffer is still an error
+            return Val(bool(raw), raw, "bool"), pos + n
         if t.kind == "enumerated":
             # string-encoded enumeration: the lookup key is the whole raw buffer; the document lists the TEXT, which
             # stands for its encoding in the declared character set (and byte order)
